@@ -22,6 +22,9 @@ TRUSTED_BASE = [
     'checked at run time on every tree of the bounded scopes of C01 / C08 (pyvc/wfcheck.py)',
     'objects of classes in different inheritance families never coincide (heap versions per class family); a function is '
     'verified for partial correctness (termination and resource exhaustion are not)',
+    'vacuity guard (every run): the final path condition of every path is tested for satisfiability (z3, 1 s); a function with no '
+    'feasible path is not counted as proved and more infeasible paths than in the baseline demote it; `unknown` answers of that '
+    'test are taken as feasible (infeasible_paths / paths_shown_feasible per function in functions_under_contract)',
     'CPython and pyparsing for the bounded tier and for replays',
 ]
 
@@ -113,7 +116,8 @@ class Report:
             if r.get('error'):
                 st = 'checker-error'
             funcs.append(dict(function=r['key'], file=r['path'], sha=r['sha'], paths=r['paths'], obligations=len(r['obligations']),
-                              status=st, reason=r['unsupported'], gen_s=r['gen_s']))
+                              status=st, reason=r['unsupported'], gen_s=r['gen_s'],
+                              infeasible_paths=r.get('dead_paths'), paths_shown_feasible=r.get('live_paths')))
             for o in r['obligations']:
                 solver_time += o['time']
                 if o['verdict'] == 'unsat':
